@@ -24,7 +24,8 @@ import genjax
 from genjax import pjax as gpjax
 
 PROP = "C08"
-STMTS = ["det", "echo_scalar", "echo_vec", "echo_ss", "kp", "normal_rank", "logpdf", "logpdf_draw", "scan", "cond", "inner_mv", "kw"]
+STMTS = ["det", "echo_scalar", "echo_vec", "echo_ss", "kp", "normal_rank", "logpdf", "logpdf_draw", "scan", "cond", "inner_mv", "kw",
+         "echo_mat", "normal_mat", "logpdf_mat"]
 
 
 def gen_case(rng, tier):
@@ -37,7 +38,7 @@ def gen_case(rng, tier):
         return c
     stmts = [rng.choice(STMTS) for _ in range(rng.randint(1, 4))]
     spec = rng.choice(["pos0", "pos1", "posm1", "dict", "int0", "none", "nested_tuple"])
-    return {"part": "mv", "stmts": stmts, "spec": spec, "n": rng.randint(1, 4), "m": rng.randint(1, 3), "k": rng.randint(1, 3),
+    return {"part": "mv", "stmts": stmts, "spec": spec, "dax": rng.choice([0, 1, 2, -1, -2]), "n": rng.randint(1, 4), "m": rng.randint(1, 3), "k": rng.randint(1, 3),
             "key": rng.randint(0, 2**30), "outer": rng.choice([None, None, "repeat2", "lanes2"]), "jit": rng.random() < 0.25}
 
 
@@ -64,7 +65,7 @@ def lane_fn(stmts, det, k):
             return loc + 0.0 * scale
         return normal.sample(loc, scale)
 
-    def f(a, b, c):
+    def f(a, b, c, d=None):
         out = {}
         for i, st in enumerate(stmts):
             t = f"{i}_{st}"
@@ -84,6 +85,17 @@ def lane_fn(stmts, det, k):
                 out[t + "_draw"] = s_echo(loc, (2,))
             elif st == "kp":
                 out[t + "_kp"] = s_kp(a)
+            elif st == "echo_mat" and d is not None:
+                # matrix-valued per-lane parameter (mapped along a generated axis of a 3-D array)
+                loc = 10.0 * d
+                out[t + "_loc"] = loc
+                out[t + "_draw"] = s_echo(loc)
+            elif st == "normal_mat" and d is not None:
+                loc = 10.0 * d
+                out[t + "_loc"] = loc
+                out[t + "_ndraw"] = s_normal(loc, 1e-3 + 0.0 * c[0])
+            elif st == "logpdf_mat" and d is not None:
+                out[t] = normal.logpdf(d + 0.1, d, 1.0 + jnp.abs(c[0]))
             elif st == "normal_rank":
                 # lane scalar loc, unmapped vector scale: per-lane draw has the shape of c
                 loc = 10.0 * a
@@ -131,6 +143,16 @@ def make_args(case):
     b = (a[:, None] + 0.01 * jnp.arange(m, dtype=jnp.float32)[None, :])   # (n, m), distinct
     c = 0.3 * jnp.arange(k, dtype=jnp.float32) + 0.2
     spec = case["spec"]
+    if any(st.endswith("_mat") for st in case["stmts"]) and spec in ("pos0", "pos1", "posm1", "dict"):
+        # lane i holds the (m, k) matrix a_i + 0.01*r + 0.001*c; the lane axis is placed at position `dax`
+        dl = a[:, None, None] + 0.01 * jnp.arange(m, dtype=jnp.float32)[None, :, None] + 0.001 * jnp.arange(k, dtype=jnp.float32)[None, None, :]
+        dax = case.get("dax", 0)
+        D = jnp.moveaxis(dl, 0, dax)
+        bb, bax = (b, 0) if spec == "pos0" else (b.T, 1 if spec != "posm1" else -1)
+        if spec == "dict":
+            return ({"a": a, "b": b.T, "d": D}, c), ({"a": 0, "b": 1, "d": dax}, None), None, \
+                lambda f: (lambda dd, cc: f(dd["a"], dd["b"], cc, dd["d"]))
+        return (a, bb, c, D), (0, bax, None, dax), None, lambda f: f
     if spec == "pos0":
         return (a, b, c), (0, 0, None), None, lambda f: f
     if spec == "pos1":
@@ -150,7 +172,7 @@ def make_args(case):
 
 
 def run_mv(case, viol, probes):
-    sig = dict(part="mv", spec=case["spec"], outer=case["outer"], stmts="+".join(sorted(set(case["stmts"]))))
+    sig = dict(part="mv", spec=case["spec"], outer=case["outer"], stmts="+".join(sorted(set(case["stmts"]))), dax=case.get("dax"))
     args, in_axes, axis_size, adapt = make_args(case)
     k = case["k"]
     fp = adapt(lane_fn(case["stmts"], False, k))
@@ -345,6 +367,8 @@ def run_case(case):
     try:
         if case["part"] == "mv":
             probes["spec_" + case["spec"]] = 1
+            if any(st.endswith("_mat") for st in case["stmts"]) and case["spec"] in ("pos0", "pos1", "posm1", "dict"):
+                probes["matrix_lane_axis_%s" % case.get("dax")] = 1
             for s in set(case["stmts"]):
                 probes["st_" + s] = 1
             if case["outer"]:
@@ -368,6 +392,10 @@ def shrink(case):
                 c = copy.deepcopy(case)
                 del c["stmts"][i]
                 yield c
+        if case.get("dax"):
+            c = copy.deepcopy(case)
+            c["dax"] = 0
+            yield c
         for k in ("n", "m", "k"):
             if case[k] > 1:
                 c = copy.deepcopy(case)
